@@ -19,16 +19,130 @@ import (
 	"verif/harness/vh"
 )
 
-// types whose wire order of rows is the iteration order of an unordered hash map: the dump is
-// sorted, so the model cannot reproduce the bytes from it (decode is still compared, as a set)
-func encodeSkipped(c *Case) bool { return c.sp != nil && c.sp.unordered }
+// rows of an unordered hash map (IntKeyMap, IntIntMap) are written in iteration order but dumped
+// sorted: with more than one row the model cannot reproduce the bytes from the dump (the decode is
+// still compared, as a multiset of rows)
+var unorderedTables = []string{"SqlMap", "HttpcMap", "DbNumActive", "DbNumIdle"}
+
+func encodeSkipped(c *Case) bool {
+	if c.sp == nil || !c.sp.unordered {
+		return false
+	}
+	for _, kv := range c.Pre {
+		for _, t := range unorderedTables {
+			if kv.Path == t+"#" && kv.Val != "i:0" && kv.Val != "i:1" {
+				return true
+			}
+		}
+	}
+	return false
+}
 
 func modelName(c *Case) string {
 	n := c.Type
+	if n == "StatGeneralPack/1" {
+		return "StatGeneralPack1"
+	}
 	if i := strings.IndexByte(n, '/'); i >= 0 {
 		n = n[:i]
 	}
 	return n
+}
+
+func kvGet(kvs []KV, p string) string {
+	for _, kv := range kvs {
+		if kv.Path == p {
+			return kv.Val
+		}
+	}
+	return ""
+}
+
+func intsOf(v string) []string { // "is:1,2,3"
+	v = strings.TrimPrefix(v, "is:")
+	if v == "-" || v == "" {
+		return nil
+	}
+	return strings.Split(v, ",")
+}
+
+// adapt rewrites the generic dump into the record shape of the model's layout for this type
+func adapt(c *Case, kvs []KV, post bool) []KV {
+	switch modelName(c) {
+	case "EventPack":
+		if !post {
+			return eventFold(kvs)
+		}
+	case "TransactionRec": // the version is a parameter of WriteTransactionRec
+		if i := strings.Index(c.Type, "/v"); i >= 0 && !post {
+			return append(append([]KV{}, kvs...), KV{Path: "$version", Val: "i:" + c.Type[i+2:]})
+		}
+	case "HitMapPack1": // parallel arrays -> cells "[i].Hit", "[i].Error"
+		var out []KV
+		for _, kv := range kvs {
+			if kv.Path == "Hit" || kv.Path == "Error" {
+				for i, x := range intsOf(kv.Val) {
+					out = append(out, KV{Path: "[" + strconv.Itoa(i) + "]." + kv.Path, Val: "i:" + x})
+				}
+				continue
+			}
+			out = append(out, kv)
+		}
+		return out
+	case "CounterPack1": // one presence flag for the two DB-pool maps
+		f := "i:0"
+		if kvGet(kvs, "DbNumActive?") == "i:1" && kvGet(kvs, "DbNumIdle?") == "i:1" {
+			f = "i:1"
+		}
+		return append(append([]KV{}, kvs...), KV{Path: "DbNum?", Val: f})
+	case "SMBasePack", "LogSinkPack": // sections written only when non-nil AND non-empty
+		name := "Extra"
+		if modelName(c) == "LogSinkPack" {
+			name = "Fields"
+		}
+		out := append([]KV{}, kvs...)
+		for i := range out {
+			if out[i].Path == name+"?" && out[i].Val != "i:0" && mapCount(kvGet(kvs, name)) == 0 {
+				out[i].Val = "i:0"
+			}
+		}
+		return out
+	case "StatGeneralPack", "StatGeneralPack1":
+		// Write serialises the table into dataBytes (cached); the pack layout carries those bytes
+		out := append([]KV{}, kvs...)
+		if !post {
+			db := kvGet(c.Post, "dataBytes")
+			for i := range out {
+				if out[i].Path == "dataBytes" {
+					out[i].Val = db
+				}
+			}
+		}
+		return out
+	}
+	return kvs
+}
+
+// tableRecord: the typed-list table of a StatGeneralPack as the record of the StatGeneralTable layout
+func tableRecord(kvs []KV) string {
+	var parts []string
+	n, _ := strconv.Atoi(strings.TrimPrefix(kvGet(kvs, "data#"), "i:"))
+	parts = append(parts, "data#=i:"+strconv.Itoa(n))
+	for i := 0; i < n; i++ {
+		p := "data[" + strconv.Itoa(i) + "]"
+		parts = append(parts, p+".key="+kvGet(kvs, p+".key"))
+		ty := strings.TrimPrefix(kvGet(kvs, p+".type"), "i:")
+		v := kvGet(kvs, p+".val")
+		if strings.HasPrefix(v, "is:") { // numeric lists: the type byte leads the list
+			if v == "is:-" {
+				v = "is:" + ty
+			} else {
+				v = "is:" + ty + "," + strings.TrimPrefix(v, "is:")
+			}
+		}
+		parts = append(parts, p+".val="+v)
+	}
+	return strings.Join(parts, ";")
 }
 
 // eventFold mirrors EventPack.Write's folding of uuid/escalation/status/otype into the attribute
@@ -93,16 +207,9 @@ func mapCount(v string) int { // "v:map,<n>,…"
 	return 0
 }
 
-// modelRecord adapts the dump to the record the model's writer layout reads
+// modelRecord: the record the model's writer layout reads
 func modelRecord(c *Case) string {
-	kvs := c.Pre
-	if modelName(c) == "EventPack" {
-		kvs = eventFold(kvs)
-	}
-	vals := map[string]string{}
-	for _, kv := range kvs {
-		vals[kv.Path] = kv.Val
-	}
+	kvs := adapt(c, c.Pre, false)
 	var sb strings.Builder
 	first := true
 	for _, kv := range kvs {
@@ -110,13 +217,7 @@ func modelRecord(c *Case) string {
 		if kv.exp != "" {
 			v = kv.exp // the carried tag hash
 		}
-		// a section written only when non-nil AND non-empty
-		if modelName(c) == "LogSinkPack" && kv.Path == "Fields?" {
-			if v != "i:0" && mapCount(vals["Fields"]) == 0 {
-				v = "i:0"
-			}
-		}
-		if strings.ContainsAny(kv.Path, " ;=") {
+		if kv.Path == "" || strings.ContainsAny(kv.Path, " ;=") || strings.HasPrefix(v, "?:") {
 			continue
 		}
 		if !first {
@@ -209,6 +310,12 @@ func driverChecksImpl(env *vh.Env, rep *vh.Report, cases []*Case) {
 		}
 		reqs = append(reqs, req{c, 'D', body})
 		lines = append(lines, "D "+mn+" "+vh.Hex(body))
+		if (mn == "StatGeneralPack" || mn == "StatGeneralPack1") && kvGet(c.Pre, "data#") != "i:0" && kvGet(c.Pre, "data#") != "" {
+			// writeTable: the model's table layout must produce the cached bytes the pack carries
+			db := vh.UnHex(strings.TrimPrefix(kvGet(c.Post, "dataBytes"), "b:"))
+			reqs = append(reqs, req{c, 'T', db})
+			lines = append(lines, "E StatGeneralTable "+tableRecord(c.Pre))
+		}
 	}
 	if len(lines) == 0 {
 		rep.Note("driver comparison: no case had a model layout")
@@ -223,6 +330,13 @@ func driverChecksImpl(env *vh.Env, rep *vh.Report, cases []*Case) {
 		c, o := rq.c, outs[i]
 		mn := modelName(c)
 		switch rq.kind {
+		case 'T':
+			rep.Count("model:table")
+			if o != vh.Hex(rq.body) {
+				rep.Fail("correspondence", "StatGeneralPack.writeTable:model-bytes-differ",
+					"the model's table layout does not produce the bytes of StatGeneralPack.writeTable: "+diffBytes(rq.body, vh.UnHex(safeHex(o))),
+					map[string]interface{}{"type": c.Type, "fields": vh.Clip(tableRecord(c.Pre), 20000), "go_bytes": vh.Clip(vh.Hex(rq.body), 20000), "model": vh.Clip(o, 20000)})
+			}
 		case 'E':
 			rep.Count("model:encode")
 			if o != vh.Hex(rq.body) {
@@ -250,12 +364,12 @@ func driverChecksImpl(env *vh.Env, rep *vh.Report, cases []*Case) {
 			}
 			got := parseOut(parts[1])
 			post := map[string]string{}
-			for _, kv := range c.Post {
+			for _, kv := range adapt(c, c.Post, true) {
 				post[kv.Path] = kv.Val
 			}
 			if c.sp.unordered {
 				// compare the hash-map tables as multisets of rows, everything else by path
-				for _, tab := range []string{"SqlMap", "HttpcMap"} {
+				for _, tab := range unorderedTables {
 					a, b := tableRows(got, tab), tableRows(post, tab)
 					if strings.Join(a, "|") != strings.Join(b, "|") {
 						rep.Fail("correspondence", mn+"."+tab+":model-field-differs", "rows of "+tab+" differ between the model's decode and Go's",
@@ -272,7 +386,8 @@ func driverChecksImpl(env *vh.Env, rep *vh.Report, cases []*Case) {
 				if strings.HasSuffix(k, "?") { // presence flags: nil-ness of a Go field is not what the flag says
 					continue
 				}
-				if c.sp.unordered && (strings.HasPrefix(k, "SqlMap[") || strings.HasPrefix(k, "HttpcMap[")) {
+				if c.sp.unordered && (strings.HasPrefix(k, "SqlMap[") || strings.HasPrefix(k, "HttpcMap[") ||
+					strings.HasPrefix(k, "DbNumActive[") || strings.HasPrefix(k, "DbNumIdle[")) {
 					continue
 				}
 				if mn == "EventPack" && strings.HasPrefix(k, "Attr") {
